@@ -10,7 +10,7 @@ tie:    T3 differential run of the extracted model against snoopy_filter_only_ui
 import json, os
 from vlib.core import hexs, unhex, corr_stream, VERIF, CheckError
 from vlib.tr_filter import tr_filter
-from vlib.filt import AREA, UIDS, build_impl, uid_list, malformed_list, near_misses, numeral, shrink_list, FAST_ASAN
+from vlib.filt import AREA, UIDS, build_impl, probe, uid_list, malformed_list, near_misses, numeral, shrink_list, FAST_ASAN
 
 EUIDS = [0, 7, 1000, 65534, 2 ** 32 - 2]
 
@@ -123,7 +123,7 @@ def reproduce(run, exe, cases, i):
 def minimise(run, exe, case):
     """fewest list entries (and shortest numerals) on which the implementation still breaks the specification"""
     f = case.split("\t")
-    if f[0] != "uidf" or exe is None:
+    if f[0] != "uidf" or f[1] == "root" or exe is None:
         return case
     items = (unhex(f[4]) or b"").split(b",")
     mk = lambda its: "\t".join(f[:4] + [hexs(b",".join(its))])
@@ -209,6 +209,7 @@ def check(run):
     tr_filter(run)
     ok, failed, log = run.coq_props(["Properties_C14.v"])
     exe = build_impl(run)
+    probe(run, exe)
     corp = corpus_cases()
     cases, meta = gen_cases(run.rng, run.tier)
     # a smoke stage first: when the implementation faults on a large share of it the full stream is pointless (and slow)
@@ -223,6 +224,8 @@ def check(run):
     nv, npairs = classify(run, res, allcases, "uid", exe)
     if not ok and nv == 0:
         run.violation("proof:%s" % failed, "proof", "proof obligation no longer checks: %s\n%s" % (failed, log[-1500:]), {"theorem": failed, "coq_log": log[-3000:]})
+    # one-filter chains go through C07's chain model: where that model has no valid constants for this tree (Fault) only the specification judges
+    res["mismatch"] = [x for x in res["mismatch"] if not (x[1].startswith("full\t") and x[2].startswith("fault:"))]
     if res["mismatch"] and nv == 0:
         i, c, m, im = res["mismatch"][0]
         run.violation("corr:uid", "correspondence", "model and implementation differ on %d of %d cases although the specification holds on the implementation's verdicts" % (len(res["mismatch"]), len(allcases)),
